@@ -564,6 +564,17 @@ func c19RunCanon(ctx *Ctx, c c19CanonCase) {
 		}
 		if id.String() != want {
 			ctx.Fail("canonical: String() does not reassemble the input", fmt.Sprintf("%q → %q", want, id.String()))
+			return
+		}
+		// the parts belong to the caller: overwriting them must not change what the same
+		// canonical (the same element, and an equal fresh one) splits into afterwards
+		id.Url, id.Version, id.Fragment = "scribble", "s", "f"
+		for i, again := range []*dtpb.Canonical{can, {Value: want}} {
+			id2, err := canonical.IdentityFromReference(again)
+			if err != nil || id2.Url != c.URL || id2.Version != c.Version || id2.Fragment != c.Fragment || id2.String() != want {
+				ctx.Fail("canonical: the split of a canonical depends on what a caller did with an earlier result", fmt.Sprintf("%q parsed again (%d) after the first result was overwritten → %+v, %v", want, i, id2, err))
+				return
+			}
 		}
 	})
 	if g.Panic != "" {
